@@ -72,6 +72,8 @@ def check_asm(case):
             cls.add("op")
     if not ref:
         cls.add("empty-script")
+    if case.get("lookalike"):
+        cls.add("nt:template-look-alike")
     want = sr.assemble(ref)
     if len(args) % 2 and all(kind == "data" for kind, _ in ref):
         # history: the same argument list first goes through the witness form of the assembler, and the script's bytes
@@ -352,8 +354,28 @@ def data_item(draw, big):
     return f"R{n}:{draw(st.binary(min_size=1, max_size=3)).hex()}"
 
 
+def _lookalikes(h):
+    """Scripts with the total length and the outer opcodes of a standard template but another interior (h: 40 hex bytes)."""
+    d = lambda a, n: h[2 * a : 2 * (a + n)]  # noqa: E731
+    return [
+        ["OP_HASH160", d(0, 10), d(10, 9), "OP_EQUAL"],  # 23 bytes a9 .. 87, not P2SH
+        ["OP_HASH160", "OP_SWAP", "OP_HASH160", d(0, 18), "OP_EQUAL"],
+        ["OP_HASH160"] + ["OP_DUP"] * 21 + ["OP_EQUAL"],
+        ["OP_DUP", "OP_HASH160", d(0, 10), d(10, 9), "OP_EQUALVERIFY", "OP_CHECKSIG"],  # 25 bytes 76 a9 .. 88 ac, not P2PKH
+        ["OP_DUP", "OP_HASH160"] + ["OP_NOP"] * 21 + ["OP_EQUALVERIFY", "OP_CHECKSIG"],
+        ["OP_0", d(0, 9), d(9, 10)],  # 22 bytes starting 00, not a v0 program
+        ["OP_0"] + ["OP_DUP"] * 21,
+        ["OP_1", d(0, 15), d(15, 16)],  # 34 bytes starting 51
+        [d(0, 16), d(16, 16), "OP_CHECKSIG"],  # 35 bytes ending ac, not P2PK
+        ["OP_RETURN", d(0, 17), d(17, 18)],  # 38 bytes starting 6a, not the commitment
+    ]
+
+
 @st.composite
 def asm_cases(draw, big):
+    if draw(st.integers(0, 9)) == 0:
+        h = draw(st.binary(min_size=40, max_size=40)).hex()
+        return {"items": draw(st.sampled_from(_lookalikes(h))), "lookalike": 1}
     n = draw(st.integers(0, 40))
     items = []
     nbig = 0
@@ -428,7 +450,7 @@ def _targets(tier):
     big = tier == "thorough"
     return [
         Target("asm-disasm", check_asm, strategy=lambda tier: asm_cases(big), budget={"quick": 4000, "thorough": 80000},
-               required=["nt:pushdata1", "nt:pushdata2", "nt:after-witness-calls-on-same-input"] + (["nt:pushdata4"] if big else [])),
+               required=["nt:pushdata1", "nt:pushdata2", "nt:after-witness-calls-on-same-input", "nt:template-look-alike"] + (["nt:pushdata4"] if big else [])),
         Target("disasm-asm", check_opbytes, strategy=lambda tier: opbyte_cases(big), budget={"quick": 3000, "thorough": 60000}),
         Target("push-lengths", check_pushlen, enumerate_=enum_pushlens, required=["nt:pushdata1", "nt:pushdata2", "nt:pushdata4", "nt:boundary-len"], exhaustive=True),
         Target("witness", check_witness, strategy=lambda tier: witness_cases(big), budget={"quick": 3000, "thorough": 60000},
